@@ -168,7 +168,9 @@ func init() {
 		teardownOrder := []int{}
 		unblock := make(chan struct{})
 
+		var setupT0 *f1testing.T
 		scenarioFn := func(t *f1testing.T) f1testing.RunFn {
+			setupT0 = t
 			setupCount.Add(1)
 			setupSeq.Store(seq.Add(1))
 			n := atoi(p["setupcleanups"])
@@ -237,6 +239,10 @@ func init() {
 					rec.endSeq = seq.Add(1)
 					finished.Add(1)
 				}()
+				if v, ok := p["failsetupat"]; ok && v == id && setupT0 != nil {
+					// the scenario reports a broken environment through the handle it was set up with; the iterations go on
+					setupT0.Fail()
+				}
 				if id == blockID {
 					<-unblock
 				} else if d := bodies[(num-1)%len(bodies)]; d > 0 {
